@@ -76,6 +76,10 @@ func (s *Set) Add(a rune) {
 
 // AddRange adds to a set.
 func (s *Set) AddRange(begin, end rune) {
+	if begin > end {
+		// an empty range adds nothing (and must not create an inverted interval)
+		return
+	}
 	beginNode := &s.Head
 	for beginNode.Forward != nil && begin > beginNode.Forward.End {
 		beginNode = beginNode.Forward
